@@ -130,9 +130,9 @@ func cmdCheck(args []string) {
 	if v := os.Getenv("VX_CROSS"); v != "" {
 		crossEvery, _ = strconv.Atoi(v)
 	} else if *tier == "thorough" {
-		crossEvery = 5
+		crossEvery = 3
 	} else {
-		crossEvery = 50
+		crossEvery = 10
 	}
 	if *tier != "thorough" {
 		*tier = "quick"
